@@ -34,6 +34,7 @@ var (
 	ErrRangeNotSatisfiable  = errors.New("range not satisfiable")
 	ErrIfRangeMismatch      = errors.New("If-Range header mismatch")
 	ErrRequestLoop          = errors.New("request names the proxy itself as its origin")
+	ErrResponseIncomplete   = errors.New("the response could not be written completely")
 	ErrBadGateway           = errors.New("bad gateway. Error when sending request to upstream")
 )
 
@@ -128,7 +129,8 @@ func finalizeAndRespond(r responder.Responder, resp io.Reader, status int, req *
 	written, err := r.Write(status, body)
 	if err != nil {
 		slog.Error("Error writing response", "url", req.URL, "error", err)
-		return err
+		// The response was started but could not be completed: whoever owns the connection must give it up
+		return fmt.Errorf("%w: %w", ErrResponseIncomplete, err)
 	}
 
 	metrics.Global.Requests.BytesServed.Add(written)
@@ -416,11 +418,14 @@ func (p *Proxy) handleCONNECT(r responder.Responder, proxyReq *http.Request) err
 		// Content-Length and framing, none of which may leak into the next response on this tunnel.
 		exchangeResponder := responder.NewRawHTTPResponder(tlsConn)
 		if err := p.handleHTTP(exchangeResponder, req); err != nil {
-			// The response may have been cut short (e.g. the origin sent less than the Content-Length it announced):
-			// client and proxy no longer agree on where the next response starts, so the tunnel ends here, just as
-			// the server closes a plain connection on which it could not finish a response.
-			slog.Error("Error processing HTTP request in CONNECT tunnel, closing it", "host", proxyReq.Host, "error", err)
-			break
+			slog.Error("Error processing HTTP request in CONNECT tunnel", "host", proxyReq.Host, "error", err)
+			if errors.Is(err, ErrResponseIncomplete) {
+				// The response was cut short (e.g. the origin sent less than the Content-Length it announced):
+				// client and proxy no longer agree on where the next response starts, so the tunnel ends here, just
+				// as the server closes a plain connection on which it could not finish a response. An exchange
+				// that failed but was answered completely (a 416, a 502) leaves the tunnel usable.
+				break
+			}
 		}
 
 		// The next request starts where this one's body ends. A body the exchange did not read (the answer came
